@@ -101,6 +101,29 @@ ADDED = {
     "C20": ("", " Binomial-tree histories (maximal rank), queries of several hundred interleaved elements, an element type whose Hash is coarser than its Eq, queries with repeated and never-seen elements, clone_from into instances in use.", ""),
 }
 
+# Round 4 (hostile-caller shapes, DESIGN.md 12.7): appended after ADDED.
+ADDED4 = {
+    "C01": ("; rejected parses (texts that fail late, in the degree lists) interleaved on the worker threads between judged cases",
+            " A valid text must be accepted whatever the thread parsed before; long rejected strings with a multi-byte character at every byte offset up to 420 after the first offending character.", ""),
+    "C02": ("; PartialDSet builder histories with rejected calls (caught panics) in between, whole state compared with the model after every call", "", ""),
+    "C03": ("", " Branching numbers around the sign bit of the machine word (2^62..2^64-1) on orbits of length 1; long-tie strips (20,000-140,000 chambers, one marked orbit off the middle) under reversal, rotation and a random renumbering.", ""),
+    "C04": ("", " Base images outside the target (0, size+1, usize::MAX) must give None; degree tuples that compensate each other across a power-of-two radix ((a+B, b) against (a, b+1), B = 2^8, 2^16, 2^32).", ""),
+    "C06": ("; iterator-contract oracle: the generator driven through nth / skip / step_by / take-in-chunks / last / fold / peekable must yield the items and numbers of the plain next() sequence, size_hint must bracket the truth, an exhausted generator stays exhausted", "", ""),
+    "C07": ("; iterator-contract oracle (as C06) on DSyms", " Flags of the 7- and 8-gonal prism (23 and 26 two-orbits; thorough 5..11-gonal): validity, numbering, irredundancy under the 4p automorphisms and the union clause without the reference enumeration.", ""),
+    "C08": ("", " Mirror polygons with 20-60 corner points (strips with op2 = identity), single-digit and mixed corner orders.", ""),
+    "C10": ("; abandoned constructor calls (input iterator that panics half way, caught) interleaved on the worker threads between judged cases",
+            " Conjugate-before-core histories: u c u^-1 queried before c, its rotations, its inverse and partial conjugates on the same thread.", ""),
+    "C12": ("; iterator-contract oracle (as C06) on the table enumeration", "", ""),
+    "C13": ("; relators handed over in three iterator forms; abandoned stabilizer calls (relator with a generator the table lacks, base row outside the table) between judged cases",
+            " Intersection with 104,927 rows (beyond the 100,000-row limit of coset enumeration, which does not apply to this routine).", ""),
+    "C14": ("; relators handed over in six iterator forms (exact size, filter, chain, no size hint at all, flat_map, take_while); abandoned calls (panicking iterator, out-of-range generator) between judged cases", "", ""),
+    "C17": ("; out-of-domain calls (2D, 1D, 5-fold axis) between judged cases", "", ""),
+    "C19": ("; edge lists handed over in six iterator forms; abandoned and out-of-domain queries between judged cases",
+            " Extreme vertex names (usize::MAX, 2^63, 2^32+1) in edge-cut queries.", ""),
+    "C20": ("; abandoned operations: Partition<Fragile>, an element type whose Clone gives up once during find of a never-seen element (caught), instance used on",
+            "", ""),
+}
+
 NOT_YET = {
 }
 
@@ -113,6 +136,8 @@ def main():
             tech, text, note, ref = CHECKS[pid]
             a = ADDED.get(pid, ("", "", ""))
             tech, text, note = tech + a[0], text + a[1], note + a[2]
+            b = ADDED4.get(pid, ("", "", ""))
+            tech, text, note = tech + b[0], text + b[1], note + b[2]
             checks.append({
                 "property_id": pid,
                 "quick_cmd": f"bin/check {pid} quick",
@@ -148,7 +173,7 @@ def main():
         }],
         "checks": checks,
         "not_applicable": not_applicable,
-        "notes": "Verdicts are three-valued: exit 0 held / exit 1 VIOLATION / exit 2 INCONCLUSIVE (never a VIOLATION line). Known findings: known_findings.txt (fixed: entries suppress nothing; 6 known: entries, all C14, keyed by call site). The monitor process runs under an address-space fuse (RLIMIT_AS 44 GiB); its abnormal end is INCONCLUSIVE. VERIF_SEED seeds all sampled workloads; enumerated parts do not depend on it.",
+        "notes": "Verdicts are three-valued: exit 0 held / exit 1 VIOLATION / exit 2 INCONCLUSIVE (never a VIOLATION line). Known findings: known_findings.txt (fixed: entries suppress nothing; 6 known: entries, all C14, keyed by call site). The monitor process runs under an address-space fuse (RLIMIT_AS 44 GiB); violations observed before an abnormal end or a watchdog firing are journalled at the moment they are observed (replays/.journal-*) and reported as violations; with none journalled, its abnormal end is INCONCLUSIVE. VERIF_SEED seeds all sampled workloads; enumerated parts do not depend on it.",
     }
     with open(os.path.join(ROOT, "MANIFEST.json"), "w") as f:
         json.dump(manifest, f, indent=1)
